@@ -229,3 +229,19 @@ def apalache_check(module, init, nxt, inv, wd, timeout=900):
         tail = "\n".join(p.stdout.splitlines()[-15:])
         raise ToolError(f"apalache: {module} / {inv} is not NoError - the specification itself is broken:\n{tail}")
     return time.time() - t0
+
+
+def tlc_simulate(module, cfg, meta, num=2000, depth=80, workers=8, seed=1, timeout=1800):
+    """Random behaviours of a model that is too large to enumerate (TLC -simulate): every in-action
+    Assert and every invariant is evaluated along each behaviour."""
+    rc, out, wall = _tlc(module + ".tla", cfg, meta, {}, workers, JAVA_OPTS_MODEL, timeout,
+                         extra_args=("-simulate", f"num={num}", "-depth", str(depth), "-seed", str(seed)))
+    m = re.search(r"The number of states generated: (\d+)", out)
+    t = re.findall(r"(\d+) traces generated", out)
+    ok = rc == 0 and m is not None and "Error:" not in out
+    res = {"ok": ok, "wall": wall, "module": module, "cfg": cfg, "generated": int(m.group(1)) if m else 0,
+           "distinct": 0, "traces": int(t[-1]) if t else 0}
+    if not ok:
+        lines = [ln for ln in out.splitlines() if ln.strip() and not NOISE.match(ln)]
+        res["error"] = "\n".join(lines[:40])
+    return res
